@@ -763,6 +763,12 @@ class World:
             self._build_ugrid(data_vars, coords)
         if s['time']:
             coords[s['time']['name']] = self._time_variable(variant)
+            if s.get('analysis_time'):
+                # a second time-like variable that is not the time coordinate (CF forecast_reference_time): a scalar
+                at = xarray.Variable((), numpy.datetime64('2001-02-03T04:00:00', 'ns'),
+                                     attrs={'long_name': 'analysis time', 'standard_name': 'forecast_reference_time'})
+                at.encoding.update({'units': 'hours since 2000-01-01 00:00:00', 'calendar': 'proleptic_gregorian', 'dtype': numpy.dtype('float64')})
+                coords['analysis_time'] = at
         for name in self.vars:
             data_vars[name] = self._var_data_array(name, variant)
         for d in self.spec.get('depths', []) or []:
